@@ -858,7 +858,12 @@ def main(tier_, replay=None):
         seen.setdefault(v['class'], v)
     digest = common.tree_digest()
     vlines = []
+    klines = []
     for cls, v in sorted(seen.items()):
+        k = common.match_known(PROP, cls, {'scenario': v['scenario'], 'trace': v['schedule'], 'detail': v['detail']})
+        if k:
+            klines.append('KNOWN-FINDING: property=%s sig=%s %s' % (PROP, k[0], k[1]))
+            continue
         name = re.sub(r'[^A-Za-z0-9_.-]+', '_', cls)[:80] + '-s%d' % master
         path = common.write_replay(PROP, name, {
             'engine': 'thrsim', 'master_seed': master, 'scenario_index': v['scenario_index'],
@@ -910,11 +915,14 @@ def main(tier_, replay=None):
                        'stub': []},
         'workers': nw, 'athlib_tree_digest': digest,
     }
-    common.write_evidence(PROP, tier_, master, coverage, wall, len(seen), [
+    coverage['known_findings_matched'] = len(klines)
+    common.write_evidence(PROP, tier_, master, coverage, wall, len(vlines), [
         'pre-emption granularity is the athlib source line (sys.settrace); races inside one line are not explored',
         'only frames under athlib/ yield; jsonschema/stdlib code runs atomically between two athlib lines',
         'expected outcomes come from sequential runs of the same tree (refactor-proof, blind to sequential bugs)',
         'fork() of a pristine importer is taken as a fresh process'])
+    for l in klines:
+        print(l)
     for l in vlines:
         print(l)
     print('C16: runs=%d scenarios=%d distinct=%d nontrivial=%d violating_runs=%d classes=%d det=%s wall=%.1fs' %
@@ -925,7 +933,7 @@ def main(tier_, replay=None):
     if det['diverged']:
         print('HARNESS-ERROR determinism self-test diverged: %s' % det)
         return 2
-    return 1 if seen else 0
+    return 1 if vlines else 0
 
 
 def run_corpus():
